@@ -3,6 +3,11 @@
 From PlzV Require Import Base.Harness Model.Sched Proof.Sched_Base Proof.Sched_Inv Proof.Sched_Deps Proof.C04 Proof.Sched_Measure Proof.C05 Proof.C05_Defs.
 From Coq Require Import Lia Arith.
 
+(* the cycle check stops unconditionally; asyncError does too in the source as it is (Gen/StateOrder.v) *)
+Lemma err_stop_true : forall g s l, err_stop true g s l = async_error g s l.
+Proof. reflexivity. Qed.
+#[export] Hint Rewrite err_stop_true : proj.
+
 (* ---- views: one component after one step, as a function of the label ---- *)
 Lemma view_pk : forall g s l, pk (apply g s l) =
   match l with
@@ -26,12 +31,12 @@ Proof. intros g s l. destruct l; cbn [apply]; grind_apply. Qed.
 
 Lemma stopreq_mono : forall g s l, stopreq s = true -> stopreq (apply g s l) = true.
 Proof.
-  intros g s l H. destruct l; cbn [apply]; unfold async_error, log_fail; grind_apply; auto.
+  intros g s l H. destruct l; cbn [apply]; unfold async_error, err_stop, log_fail; grind_apply; auto.
 Qed.
 
 Lemma closed_mono : forall g s l, closed s = true -> closed (apply g s l) = true.
 Proof.
-  intros g s l H. destruct l; cbn [apply]; unfold async_error, log_fail, task_done; grind_apply; auto; congruence.
+  intros g s l H. destruct l; cbn [apply]; unfold async_error, err_stop, log_fail, task_done; grind_apply; auto; congruence.
 Qed.
 
 Lemma ex_mono : forall g s l x, ex s x = true -> ex (apply g s l) x = true.
